@@ -92,6 +92,11 @@ func (rt c15RT) RoundTrip(req *http.Request) (*http.Response, error) {
 			b, _ := json.Marshal(map[string]any{"resource": res, "authorization_servers": []string{"https://as-of-scripted-prm.example"}, "scopes_supported": []string{"s"}, field: value})
 			return string(b)
 		}
+		if u.Host == "foreign.example" {
+			// another origin's own, self-consistent document: it describes that origin, not the MCP server
+			// the client is talking to, whatever its location looks like
+			return c15JSON(200, doc("https://foreign.example"+strings.TrimPrefix(u.Path, "/.well-known/oauth-protected-resource"), "https://as-of-foreign-prm.example")), nil
+		}
 		switch fault("prm-answer", 12) {
 		case 9:
 			return c15JSON(200, docWith(resource, "resource_policy_uri", "javascript:alert(1)")), nil
@@ -306,7 +311,11 @@ func c15Run(ch *verifx.Chooser) (obs, bad, sig string, steps int) {
 	}
 	req, _ := http.NewRequest("POST", mcpURL, nil)
 	resp := &http.Response{StatusCode: 401, Header: http.Header{}, Body: io.NopCloser(strings.NewReader(""))}
-	switch ch.Fault("challenge", 5) {
+	switch ch.Fault("challenge", 7) {
+	case 5:
+		resp.Header.Set("WWW-Authenticate", `Bearer resource_metadata="https://foreign.example/.well-known/oauth-protected-resource"`)
+	case 6:
+		resp.Header.Set("WWW-Authenticate", `Bearer resource_metadata="https://foreign.example/.well-known/oauth-protected-resource/mcp"`)
 	case 0:
 		resp.Header.Set("WWW-Authenticate", `Bearer resource_metadata="https://mcp.example/prm-from-challenge"`)
 	case 1:
@@ -366,7 +375,7 @@ func c15Run(ch *verifx.Chooser) (obs, bad, sig string, steps int) {
 				fail("rejected-metadata-forgotten "+variant, "%s served authorization-server metadata that must be rejected (%s), yet the code was exchanged at its default endpoints as if no metadata existed (%s)", host, variant, last)
 			}
 		}
-		for _, host := range []string{"as-of-mismatching-prm.example", "as-plain-http.example", "as-of-html-prm.example", "as-of-scripted-prm.example"} {
+		for _, host := range []string{"as-of-mismatching-prm.example", "as-plain-http.example", "as-of-html-prm.example", "as-of-scripted-prm.example", "as-of-foreign-prm.example"} {
 			if strings.Contains(last, "host="+host) {
 				fail("rejected-resource-metadata-used "+host, "the code was sent to %s, an authorization server named only by protected-resource metadata that must be rejected", host)
 			}
@@ -376,7 +385,7 @@ func c15Run(ch *verifx.Chooser) (obs, bad, sig string, steps int) {
 		}
 	}
 	for _, host := range s.asHostsAsked {
-		if host == "as-of-mismatching-prm.example" || host == "as-of-html-prm.example" || host == "as-of-scripted-prm.example" {
+		if host == "as-of-mismatching-prm.example" || host == "as-of-html-prm.example" || host == "as-of-scripted-prm.example" || host == "as-of-foreign-prm.example" {
 			fail("rejected-resource-metadata-used "+host, "authorization-server metadata was requested from %s, named only by resource metadata that must be rejected", host)
 		}
 	}
